@@ -109,6 +109,9 @@ def _ev_const(e, subst):
         return subst[t]
     if isinstance(e, ast.Constant):
         return e.value
+    if isinstance(e, (ast.List, ast.Tuple, ast.Set)) and not any(isinstance(x, ast.Starred) for x in e.elts):
+        vals = [_ev_const(x, subst) for x in e.elts]
+        return vals if isinstance(e, ast.List) else (tuple(vals) if isinstance(e, ast.Tuple) else frozenset(vals))
     if isinstance(e, ast.UnaryOp):
         v = _ev_const(e.operand, subst)
         if isinstance(e.op, ast.Not):
@@ -182,6 +185,20 @@ def _ev_const(e, subst):
             if all(isinstance(v, (int, float)) for v in vals):
                 return min(vals) if e.func.id == 'min' else max(vals)
     raise _Unknown()
+
+
+def module_consts(module):
+    """valuation of the module-level names that are bound once to a literal (numbers, strings, tuples / lists of them)"""
+    out = {}
+    for name in module.globals:
+        g = module.constant_binding(name)
+        if g is None or (isinstance(g, (ast.List, ast.Dict, ast.Set)) and module.frozen_display(name) is None and not isinstance(g, ast.Set)):
+            continue
+        try:
+            out[name] = ast.literal_eval(g)
+        except (ValueError, TypeError, SyntaxError, MemoryError, RecursionError):
+            continue
+    return out
 
 
 def eval_fact(text, subst):
